@@ -227,6 +227,23 @@ pub fn small_scope() -> Vec<MVersion> {
     out
 }
 
+pub fn bit_scope(k: u32) -> Vec<MVersion> {
+    let m = max_int();
+    let mut vals = vec![0u64, 1, (1u64 << k) - 1, 1u64 << k, (1u64 << k) + 1];
+    vals.retain(|v| *v <= m);
+    vals.sort();
+    vals.dedup();
+    let mut out = vec![];
+    for a in &vals {
+        for b in &vals {
+            for c in &vals {
+                out.push(MVersion::new(*a, *b, *c));
+            }
+        }
+    }
+    out
+}
+
 pub fn run(cfg: &RunCfg) -> PropRun {
     let mut run = PropRun::default();
     run.rule = "pairs/triples/lists of versions: (a) every ordered pair of the 912-version small scope and every ordered triple of a 114-version stratified subset, enumerated; (b) proptest lists of 3..6 related versions (mutations of a base: bump a field, add/drop/change an identifier, numeric<->alphanumeric, case flip, build only) built by struct literal or by parsing. Oracle: SemVer section 11 comparator on the model + order laws. Non-trivial = ordered pair with equal major.minor.patch (decided by release-vs-prerelease, identifiers or build only); distinct by the two canonical texts.".into();
@@ -284,6 +301,26 @@ pub fn run(cfg: &RunCfg) -> PropRun {
     run.absorb(out);
     run.stats.exhaustive_subspaces.push(json!({"name": "small-scope ordered triples (transitivity)", "versions": m, "triples": m * m * m}));
 
+    // bit-boundary scope: for every k, all ordered pairs of versions whose fields come from
+    // {0, 1, 2^k-1, 2^k, 2^k+1}: carries, truncations and packed comparisons show here
+    let out = enumerate(
+        cfg,
+        "bit-boundary-pairs",
+        |shard, nsh| (1u32..=50).filter(move |k| (*k as usize) % nsh == shard),
+        |k, st| {
+            let vs = bit_scope(*k);
+            let cs: Vec<Version> = vs.iter().map(|v| v.to_crate()).collect();
+            for i in 0..vs.len() {
+                for j in 0..vs.len() {
+                    check_pair(&vs[i], &vs[j], &cs[i], &cs[j], st)?;
+                }
+            }
+            Ok(())
+        },
+    );
+    run.absorb(out);
+    run.stats.exhaustive_subspaces.push(json!({"name": "bit-boundary pairs: fields from {0,1,2^k-1,2^k,2^k+1}, k=1..50, all ordered pairs per k", "versions_per_k": 125, "pairs": 50 * 125 * 125}));
+
     // (b) random related lists
     let total = cfg.pick(60_000, 1_500_000);
     let out = campaign(
@@ -304,6 +341,16 @@ pub fn replay(campaign: &str, case: &Value) -> Result<(), Failure> {
         "related-lists" => {
             let c: ListCase = serde_json::from_value(case.clone()).map_err(|e| Failure::new("bad-replay", e.to_string()))?;
             check_list(&c, &mut st)
+        }
+        "bit-boundary-pairs" => {
+            let k: u32 = serde_json::from_value(case.clone()).map_err(|e| Failure::new("bad-replay", e.to_string()))?;
+            let vs = bit_scope(k);
+            for a in &vs {
+                for b in &vs {
+                    check_pair(a, b, &a.to_crate(), &b.to_crate(), &mut st)?;
+                }
+            }
+            Ok(())
         }
         "small-scope-pairs" => {
             let i: usize = serde_json::from_value(case.clone()).map_err(|e| Failure::new("bad-replay", e.to_string()))?;
